@@ -160,6 +160,7 @@ J_parseany(e) ==
     IF e.outcome = "panic" THEN "panic"
     ELSE IF e.outcome = "noentry" THEN "harness-unknown-entry"
     ELSE IF ~e.nilOnErr THEN "non-nil-value-with-error"
+    ELSE IF e.nilOk THEN "neither-a-decoded-value-nor-an-error"
     ELSE IF e.capDep THEN "result-depends-on-spare-capacity"
     ELSE "ok"
 
